@@ -3,6 +3,7 @@
 package gi
 
 import (
+	"fmt"
 	"strings"
 
 	"github.com/ohler55/slip"
@@ -58,6 +59,10 @@ func (f *StringRepeat) Call(s *slip.Scope, args slip.List, depth int) slip.Objec
 		count = int(num)
 	} else {
 		slip.TypePanic(s, depth, "count", args[1], "fixnum")
+	}
+	if count < 0 || (0 < len(str) && slip.ArrayMaxDimension/len(str) < count) {
+		slip.TypePanic(s, depth, "count", args[1],
+			fmt.Sprintf("non-negative fixnum giving a string of not more than %d bytes", slip.ArrayMaxDimension))
 	}
 	return slip.String(strings.Repeat(str, count))
 }
